@@ -65,6 +65,11 @@ def run(chk):
             m = index["shards"][0]["cases"][0]
             chk.sample({"assignment": m["assignment"], "formats": m["formats"], "inputs": m["inputs"], "capacity": cap, "kind": m["kind"]})
     chk.extra["initial_capacities"] = [c or "default(2^20)" for c in caps]
+    # static certificate on the real IR of every swept kernel: no store can ever target an input
+    # (CERT_input_safe_sound: for ALL inputs the kernel never even attempts a write into an input)
+    from props._certs import cert_props, run_certs
+    cert_props(chk)
+    run_certs(chk, ["input_safe"], priority=GROWTH)
     if not quick:
         asan_sweep(chk)
 
